@@ -1037,6 +1037,14 @@ def s_same_code(draw):
                 if tw is not None:
                     fn, args, kwargs = src[0], tw[0], tw[1]
             ops.append([fn, kind, args, kwargs])
+    if draw(st.sampled_from([True, True, False])):
+        # by construction: a call / binding on a function that is NOT the first one touched, leaving the last default unfilled
+        first = ops[0][0]
+        fn = draw(st.sampled_from([i for i in range(nf) if i != first]))
+        args, kwargs = draw(s_call(s))
+        last = pnames(s)[n - 1]
+        args, kwargs = args[:n - 1], [kv for kv in kwargs if kv[0] != last]
+        ops.insert(draw(st.integers(1, len(ops))), [fn, draw(st.sampled_from(['call', 'bind'])), args, kwargs])
     calls = [(op[2], op[3]) for op in ops if op[1] != 'spec']
     ok = [nm for nm in DECOS if all(admissible(nm, dict(s, dvals=dv), a, k) for a, k in calls for dv in dvals)]
     klasses = sorted(set(KLASS[nm] for nm in ok))
